@@ -257,8 +257,8 @@ pub fn dispatch(kind: &str, v: &Value) -> Option<Outcome> {
     }
 }
 
-pub fn run(ctx: &Ctx) -> i32 {
-    let mut st = ctx.run_replays(&dispatch);
+pub fn campaigns(ctx: &Ctx) -> Stats {
+    let mut st = Stats::default();
     let t = ctx.tier;
     let (len, total) = t.pick((10usize, 40000u64), (30, 800000));
     for (name, exact) in [("exact-programs", true), ("mixed-programs", false)] {
@@ -266,6 +266,12 @@ pub fn run(ctx: &Ctx) -> i32 {
         let strat = move || (recipe_strategy(len), prop::collection::vec(any::<u8>(), 1..64)).boxed();
         st.merge(ctx.run_prop(name, total / 2, strat, move |(prog, choices)| Some(Case12 { base: elaborate(&cfg, prog), choices: choices.clone() })));
     }
+    st
+}
+
+pub fn run(ctx: &Ctx) -> i32 {
+    let mut st = ctx.run_replays(&dispatch);
+    st.merge(campaigns(ctx));
     if ctx.tier == Tier::Thorough {
         st.merge(ctx.run_fuzz(20000, ctx.threads, &dispatch));
     }
